@@ -120,6 +120,39 @@ def contracts():
       raises={'ZeroDivisionError': 'us(ts2) == 0'},
       ensures=['us(ts2) != 0',
                'result == fl(fl(0.0 + us(ts1)) / us(ts2))'])
+    # timespan / number: the quotient, rounded to the nearest microsecond
+    c('div_timespan_by_num', name='date_time.div_timespan_by_num/int',
+      params=dict(ts=TTd(), n=TInt),
+      raises={'ZeroDivisionError': 'n == 0'},
+      ensures=['n != 0',
+               'us(result) - real_us(0) - us(ts) / n <= 0.5 and '
+               'us(ts) / n - us(result) <= 0.5'])
+    # construction from civil fields: the offset is the zone's, the value is
+    # aware, whatever the offset (zero included)
+    c('_get_tz', name='date_time._get_tz/none', params=dict(offset=None),
+      ensures=['result is None'])
+    c('_get_tz', name='date_time._get_tz/offset', params=dict(offset=TTd()),
+      requires=WHOLE, ensures=['us(result) == us(offset)'])
+    c('replace', name='date_time.replace/offset',
+      params=dict(dt=AW, year=None, month=None, day=None, hour=None,
+                  minute=None, second=None, microsecond=None, offset=TTd()),
+      requires=WHOLE,
+      # the wall-clock reading stays, the zone changes
+      ensures=['local(result) == local(dt)', 'off(result) == us(offset)',
+               'aware(result)'])
+    c('replace', name='date_time.replace/nothing',
+      params=dict(dt=AW, year=None, month=None, day=None, hour=None,
+                  minute=None, second=None, microsecond=None, offset=None),
+      ensures=['local(result) == local(dt)', 'off(result) == off(dt)',
+               'aware(result)'])
+    c('is_datetime', name='date_time.is_datetime/datetime',
+      params=dict(value=ANY), ensures=['result is True'])
+    c('is_datetime', name='date_time.is_datetime/timespan',
+      params=dict(value=TTd()), ensures=['result is False'])
+    c('is_timespan', name='date_time.is_timespan/timespan',
+      params=dict(value=TTd()), ensures=['result is True'])
+    c('is_timespan', name='date_time.is_timespan/datetime',
+      params=dict(value=ANY), ensures=['result is False'])
     c('utctz', params={}, ensures=['us(result) == 0'])
     # ---- zone views -----------------------------------------------------
     # d.utc is the same instant expressed at offset zero
